@@ -157,21 +157,38 @@ def build_scope(sc, sid):
     if "G0" in slots:
         f2.append(comment)
     f2 += ["package u", "", 'import "m/d"', ""]
+    delta = 0
+    if sc.get("ld"):
+        # generated code: everything below is renumbered (adjusted line = physical line + 100)
+        f2.append("//line f2.go:%d" % (len(f2) + 2 + 100))
+        delta = 100
     if "D4" in slots:
         f2.append(comment)
     f2.append("func fn4(p *d.T, s d.S) {" + ((" " + comment) if "TF4" in slots else ""))
     if "S41" in slots:
         f2.append("\t" + comment)
     f2.append("\t" + fmt(one, 17) + ((" " + comment) if "T41" in slots else ""))
-    pos["b1"] = ("u/f2.go", len(f2))
+    pos["b1"] = ("u/f2.go", len(f2) + delta)
     if kind == "CTOR03":
         f2.append("\t_ = v17")
+    f2.append("}")
+    f2.append("")
+    # a function literal at package level: its body is a block of statements inside a declaration that is not a func declaration
+    f2.append("var h6 = func(p *d.T, s d.S) {")
+    if "S61" in slots:
+        f2.append("\t" + comment)
+    f2.append("\t" + fmt(one, 19) + ((" " + comment) if "T61" in slots else ""))
+    pos["b61"] = ("u/f2.go", len(f2) + delta)
+    f2.append("\t" + fmt(one, 20))
+    pos["b62"] = ("u/f2.go", len(f2) + delta)
+    if kind == "CTOR03":
+        f2.append("\t_, _ = v19, v20")
     f2.append("}")
     f2.append("")
     if "D5" in slots:
         f2.append(comment)
     f2.append(fmt(decl, 18).replace("g2", "g5") + ((" " + comment) if "TD5" in slots else ""))
-    pos["b5"] = ("u/f2.go", len(f2))
+    pos["b5"] = ("u/f2.go", len(f2) + delta)
     h = ["package u", "", 'import "m/d"', "", "var gp *d.T", "", "var gs d.S", "", "var _ = gp", ""]
     prog = {"id": sid, "pkgs": [
         {"path": "m/d", "name": "d", "files": [{"name": "d/d.go", "src": D_SRC}]},
